@@ -138,6 +138,13 @@ def schedule_rules(rep, repo):
 
     # ---- 3. release after the level's allocations
     rep.rule('C07.release', 'every alloc of a level is inside the per-op loop; every free is after that loop, inside the per-level loop, under c_reuse, over the free set of that level')
+    for starts, stops, got, want in P.level_partition():
+        ok = got == want
+        rep.ob('C07.release', f'allocation pass covers ops {want} for level_starts={starts} level_stops={stops}', ok)
+        if not ok:
+            rep.violate('C07.release', smod, init, f'ops per allocation-pass iteration for level_starts={starts}, level_stops={stops}: {got}',
+                        f'the allocation pass must treat exactly the ops [level_starts[k], level_stops[k]) in its k-th iteration; it covers {got} instead of {want}: '
+                        f'an op of another level is charged to this level\'s release set, so memory it still reads can be handed out within its own level', node=P.alloc_level_loop)
     allocs = [c for c in find_all(P.alloc_level_loop, ast.Call) if call_name(c) == 'h.alloc']
     frees = [c for c in find_all(init, ast.Call, nested=False) if call_name(c) == 'h.free']
     ok = len(allocs) == 1 and all(any(n is c for n in ast.walk(P.alloc_op_loop)) for c in allocs)
@@ -278,6 +285,14 @@ def thread_writes(rep, repo):
     rep.ob('C07.writes', 'cuda.atomic.add(abuf, (a_loc, sim), ...)', ok)
     if not ok:
         rep.violate('C07.writes', wmod, g, at[0] if at else 'cuda.atomic.add', 'wave_eval_gpu must accumulate with cuda.atomic.add(abuf, (a_loc, sim), ...)', node=g)
+
+
+def depends(rep, repo):
+    """The schedule is computed over stem-substituted operands and over the memory map: the stem table, the keep-alive
+    references and the allocation of the special slots (C08 map rules) decide which line an op really reads and when its
+    memory may be handed out again. Rule ids keep their C08. prefix."""
+    from checks import c08
+    c08.map_rules(rep, repo)
 
 
 def thorough(rep, repo):
